@@ -43,6 +43,7 @@ pub fn determinism(engine: &Engine, seed: u64, n: u64) -> i32 {
             if bad <= 5 {
                 eprintln!("nondeterministic scenario {} ({} / {}): {:016x} vs {:016x} vs {:016x}", i, scs[i].property, scs[i].label, a[i], b[i], c[i]);
                 // show the first differing log line
+                std::env::set_var("VERIF_KEEP_LOG", "1");
                 let la = engine.with_ctx("detA2", |ctx| run_scenario(ctx, &scs[i]).log);
                 let lb = engine.with_ctx("detB2-x", |ctx| run_scenario(ctx, &scs[i]).log);
                 for (x, y) in la.iter().zip(lb.iter()) {
@@ -100,11 +101,13 @@ pub fn audit(engine: &Engine) -> i32 {
                 faults: vec![],
                 leak: 0,
                 canary: true,
+                clock: None,
+                pid: None,
             },
         ),
         (
             "cli",
-            NodeSpec { kind: NodeKind::Cli { args: vec!["-o".into(), "gen".into(), "--report".into(), "src/a.lalrpop".into(), "src/sub/b.lalrpop".into()] }, cwd: String::new(), env: vec![], hashseed: 0, faults: vec![], leak: 0, canary: false },
+            NodeSpec { kind: NodeKind::Cli { args: vec!["-o".into(), "gen".into(), "--report".into(), "src/a.lalrpop".into(), "src/sub/b.lalrpop".into()] }, cwd: String::new(), env: vec![], hashseed: 0, faults: vec![], leak: 0, canary: false, clock: None, pid: None },
         ),
         (
             "api-process_file-faulted",
@@ -116,6 +119,8 @@ pub fn audit(engine: &Engine) -> i32 {
                 faults: vec!["4:enospc:10".into()],
                 leak: 0,
                 canary: false,
+                clock: None,
+                pid: None,
             },
         ),
     ];
